@@ -22,6 +22,7 @@ RULE = ("random descriptions over 1-3 variables (all selected; entity() for one 
         "of which several are equal to each other (solutions are counted by identity); some cases give no domain at all, so the variables range over the registry, which holds instances of a subclass and of a subclass of the subclass; some use the predicate-form spelling the(T(From(d), f=v)); some follow an earlier query over the same variable objects (the negated description, or a join with a plain variable as first operand of ==); feature-interaction descriptions (eqlmon/ix.py), a quarter of them with a for_all over inner collections some of which are EMPTY (then the reference is the an(...) twin, not the oracle); each description is evaluated three times with the(...) and "
         "once with an(...), under ambient mode none / query / rule, caching on and off. Non-trivial: every case (each "
         "has a definite expected outcome class); distinct by structural hash; classes are counted separately.")
+RULE += " Size cases (every tier): the(...) over domains of 80-300 objects and joins with hundreds of candidate rows, pinned to 0, 1 or many solutions by conjuncts on the position fields; a description that is one equality between two attributes of the same variable, true for exactly 0, 1 or 2 of 80-300 objects."
 LEVEL_TEXT = ("Reference-model monitoring of the outcome class and value of the(...).evaluate() against the oracle count and "
               "against the real an(...) result of a fresh copy of the same description, repeated to expose sticky state.")
 LEVEL_NOTE = "Trusted: the oracle count; `an` of the same description (checked against the oracle in C01/C02)."
